@@ -105,8 +105,11 @@ static void global_queue_cases(void) {
 }
 
 static dispatch_queue_t xq, xother; static int xmode;
+static sim_event xheld, xrelease;
+static void hold_item(void *c) { (void)c; sim_event_signal(&xheld); sim_event_wait(&xrelease, 5 * NSEC); }
 static void crash_item(void *c) {
 	(void)c;
+	if (xmode == 3) { h_expect_crash("dispatch_assert_queue_barrier(a queue outside the item's chain)"); dispatch_assert_queue_barrier(xother); }
 	if (xmode == 0) { h_expect_crash("dispatch_assert_queue_not(the queue the item runs on)"); dispatch_assert_queue_not(xq); }
 	else if (xmode == 1) { h_expect_crash("dispatch_assert_queue(a queue outside the item's chain)"); dispatch_assert_queue(xother); }
 	else { h_expect_crash("dispatch_assert_queue_not(the target of the queue the item runs on)"); dispatch_assert_queue_not(xother); }
@@ -134,12 +137,15 @@ static void c18_run(void) {
 	RES.counters[QC_ORDER_PAIRS] = attr_cases; RES.counters[QC_HIER_DEPTH_SUM] = gq_cases;
 	if (g_chance(1, 20)) {
 		// expected-crash run: the last action must be refused by the library
-		xmode = (int)g_n(3);
+		xmode = (int)g_n(5);   // 4: from a plain thread, outside any item
 		xother = dispatch_queue_create("c18-other", NULL);
 		xq = xmode == 2 ? dispatch_queue_create_with_target("c18-x", NULL, xother) : dispatch_queue_create("c18-x", NULL);
 		// positive forms first
 		dispatch_sync(xq, ^{ dispatch_assert_queue(xq); if (xmode == 2) dispatch_assert_queue(xother); else dispatch_assert_queue_not(xother); });
-		if (g_chance(1, 2)) dispatch_sync_f(xq, NULL, crash_item);
+		// the foreign queue is often busy on another thread at that moment: whose lock it is matters, not that it is held
+		if ((xmode == 1 || xmode == 3 || xmode == 4) && g_chance(2, 3)) { dispatch_async_f(xother, NULL, hold_item); sim_event_wait(&xheld, LIVENESS_NS); }
+		if (xmode == 4) { h_expect_crash("dispatch_assert_queue(a queue) from a thread that is not running any of its items"); dispatch_assert_queue(xother); }
+		else if (g_chance(1, 2)) dispatch_sync_f(xq, NULL, crash_item);
 		else { dispatch_async_f(xq, NULL, crash_item); sim_sleep_ns(50 * MSEC); }
 		h_viol("expected-crash-missing", "an assertion that must fail returned");
 	}
